@@ -102,8 +102,8 @@ Proof.
 Qed.
 Lemma context_eqb_eq a b : context_eqb a b = true -> a = b.
 Proof.
-  destruct a, b; cbn; try congruence. intros E. apply andb_prop in E as [E1 E2].
-  apply N.eqb_eq in E1. apply (list_eqb_eq _ arg_eqb_eq) in E2. congruence.
+  destruct a, b; cbn; try congruence. intros E. apply andb_prop in E as [E E3]. apply andb_prop in E as [E1 E2].
+  apply N.eqb_eq in E1, E2. apply (list_eqb_eq _ arg_eqb_eq) in E3. congruence.
 Qed.
 Lemma Neqb_eq a b : N.eqb a b = true -> a = b.
 Proof. apply N.eqb_eq. Qed.
@@ -121,7 +121,8 @@ Record MI (c : cfg) (s : state) (m : mstate) : Prop := mk_MI {
   mi_w : m_w m = st_weighted s;
   mi_inv : inv s (m_l m);
   mi_linv : linv s;
-  mi_last : last_ok c s (m_last m) }.
+  mi_last : last_ok c s (m_last m);
+  mi_taint : m_taint m = [] }.
 
 Lemma MI_init c n0 : 1 <= n0 -> MI c (init n0) (m_init n0).
 Proof. intros H. constructor; cbn; auto; [apply inv_init; exact H|apply init_linv]. Qed.
@@ -173,8 +174,13 @@ Qed.
 Lemma spec_outcome_model c s m cl :
   0 < max_history c -> MI c s m -> spec_outcome_ok c m cl (out_of (step c s cl)) = true.
 Proof.
-  intros Hmh [Hnow Hs Hw Hinv Hlin Hlast]. pose proof Hinv as [Hn Hsi Hwi Hl].
-  unfold spec_outcome_ok. rewrite Hnow, Hs, Hw. destruct cl; try reflexivity.
+  intros Hmh [Hnow Hs Hw Hinv Hlin Hlast Htaint]. pose proof Hinv as [Hn Hsi Hwi Hl].
+  assert (Hgate : forall k, pl_gate m k = false).
+  { intros k. unfold pl_gate. rewrite Hnow, Htaint. cbn [mem_key existsb]. rewrite orb_false_r. lia. }
+  unfold spec_outcome_ok. rewrite Hnow, Hs, Hw. destruct cl.
+  - (* Advance *)
+    unfold out_of, step. cbn [exec]. destruct ((0 <=? n) && (now s + n <=? MAXU32)) eqn:E; [|reflexivity].
+    cbn [fst snd is_okb implb' negb orb]. apply andb_prop in E as [E _]. exact E.
   - (* CanEnforce *)
     destruct p.
     + destruct (simple_iff c s acct rid ctx sgs []) as [E _]. rewrite E. unfold spec_s_can. apply outcome_eqb_refl.
@@ -186,25 +192,13 @@ Proof.
       * destruct sgs as [|sg0 sgr]; [reflexivity|].
         destruct (kget (acct, rid) (m_l m)) as [i|] eqn:Hi.
         -- destruct (grel_some _ _ _ _ Hl Hi) as (d & Hd & Hrel). destruct (Hlin _ _ Hd) as [Hlim Hcc].
-           assert (HL : sd_limit d = gi_limit i) by (destruct Hrel; assumption).
+           rewrite Hgate. cbn [orb].
            destruct (l_can_enforce c s acct rid ctx (sg0 :: sgr)) as [b|] eqn:E.
-           ++ assert (Hs1 : implb' (is_true (Ok (RBool b))) (window_sum (now s) (gi_period i) (gi_log i) + amt <=? gi_limit i) = true).
-              { destruct b; [|reflexivity]. pose proof (l_can_true _ _ _ _ _ _ _ _ _ Hn Hd Hrel Ha E). cbn. lia. }
-              rewrite Hs1. cbn [andb].
-              destruct (nonneg_log (gi_log i) && (0 <=? amt)) eqn:Enn; [|reflexivity].
-              apply andb_prop in Enn as [Enn Eamt]. assert (Hamt : 0 <= amt) by lia.
-              destruct (window_sum (now s) (gi_period i) (gi_log i) + amt <=? MAX128) eqn:Esum.
-              ** pose proof (l_can_value c s acct rid ctx (sg0 :: sgr) i d amt Hmh Hn ltac:(discriminate) Hd Hrel Ha Enn Hamt Hlim Hcc ltac:(lia)) as Hv.
-                 rewrite E in Hv. inversion Hv. apply outcome_eqb_refl.
-              ** pose proof (l_can_exact c s acct rid ctx (sg0 :: sgr) i d amt Hmh Hn ltac:(discriminate) Hd Hrel Ha Enn Hamt Hlim Hcc) as Hex.
-                 rewrite E in Hex. unfold l_fits in Hex.
-                 replace (window_sum (now s) (gi_period i) (gi_log i) + amt <=? gi_limit i) with false in Hex by lia.
-                 destruct b; cbn in Hex |- *; congruence.
-           ++ cbn [is_true implb' negb orb andb].
-              destruct (nonneg_log (gi_log i) && (0 <=? amt)) eqn:Enn; [|reflexivity].
-              apply andb_prop in Enn as [Enn Eamt]. assert (Hamt : 0 <= amt) by lia.
-              destruct (window_sum (now s) (gi_period i) (gi_log i) + amt <=? MAX128) eqn:Esum; [|reflexivity].
-              pose proof (l_can_value c s acct rid ctx (sg0 :: sgr) i d amt Hmh Hn ltac:(discriminate) Hd Hrel Ha Enn Hamt Hlim Hcc ltac:(lia)) as Hv.
+           ++ rewrite (l_can_ok_value c s acct rid ctx (sg0 :: sgr) i d amt b Hmh Hn ltac:(discriminate) Hd Hrel Ha E).
+              apply eqb_reflx.
+           ++ destruct (nonneg_log (stored i) && (0 <=? amt) && (window_sum (now s) (gi_period i) (gi_log i) + amt <=? MAX128)) eqn:Enn; [|reflexivity].
+              exfalso. apply andb_prop in Enn as [Enn Esum]. apply andb_prop in Enn as [Enn Eamt].
+              pose proof (l_can_value c s acct rid ctx (sg0 :: sgr) i d amt Hmh Hn ltac:(discriminate) Hd Hrel Ha Enn ltac:(lia) Hlim Hcc ltac:(lia)) as Hv.
               rewrite E in Hv. discriminate.
         -- pose proof (grel_none _ _ _ Hl Hi) as Hnone. unfold l_can_enforce. rewrite Hnone. reflexivity.
       * unfold l_can_enforce. rewrite Ha. destruct sgs; [reflexivity|].
@@ -239,15 +233,17 @@ Proof.
       * cbn [is_true]. rewrite andb_false_r. reflexivity.
     + rewrite enforce_out_ok.
       destruct (kget (acct, rid) (m_l m)) as [i|] eqn:Hi.
-      * destruct (grel_some _ _ _ _ Hl Hi) as (d & Hd & Hrel).
+      * destruct (grel_some _ _ _ _ Hl Hi) as (d & Hd & Hrel). rewrite Hgate. cbn [orb].
         assert (Himp : implb' (is_ok (enforce_batch c PL s auths acct rid sgs (ctx :: rest)))
-                         (nonempty sgs && l_batch_ok (now s) (gi_limit i) (gi_period i) (ctx :: rest) (gi_log i)) = true).
+                         (nonempty sgs && l_batch_ok (now s) (gi_limit i) (gi_period i) (ctx :: rest) (gi_log i)
+                          && l_batch_exact (max_history c) (now s) (gi_limit i) (gi_period i) (ctx :: rest) (gi_log i)) = true).
         { destruct (enforce_batch c PL s auths acct rid sgs (ctx :: rest)) as [[s1 e1]|] eqn:E; [|reflexivity].
           destruct (l_batch_rel c auths acct rid sgs (ctx :: rest) s d i s1 e1 Hn Hd Hrel E)
             as (d' & _ & _ & _ & _ & _ & _ & _ & Hbo & Hne).
+          rewrite (l_batch_fits c auths acct rid sgs (ctx :: rest) s d i s1 e1 Hn Hd Hrel E).
           destruct (Hne ltac:(discriminate)) as [_ Hsg]. rewrite Hbo. destruct sgs; [contradiction|reflexivity]. }
         rewrite Himp. cbn [andb].
-        destruct (nonneg_log (gi_log i) && nonneg_ctxs (ctx :: rest)) eqn:Enn; [|reflexivity].
+        destruct (nonneg_log (stored i) && nonneg_ctxs (ctx :: rest)) eqn:Enn; [|reflexivity].
         apply andb_prop in Enn as [Enn Ecn].
         rewrite (l_batch_exact_ok c auths acct rid sgs (ctx :: rest) s d i Hn Hlin Hd Hrel Enn Ecn ltac:(discriminate)).
         replace (match sgs with [] => false | _ :: _ => true end) with (nonempty sgs) by (destruct sgs; reflexivity).
@@ -291,8 +287,15 @@ Proof.
       rewrite (E1 sg w ltac:(lia)). reflexivity.
     + rewrite (needs_account_auth c s (WSetWeight auths acct rid sg w) auths (acct, rid) eq_refl eq_refl Ea). reflexivity.
   - (* LInstall *)
-    destruct (has_auth auths acct) eqn:Ea; [reflexivity|].
-    rewrite (needs_account_auth c s (LInstall auths acct rid limit period) auths (acct, rid) eq_refl eq_refl Ea). reflexivity.
+    destruct (has_auth auths acct) eqn:Ea.
+    + cbn [negb orb]. destruct (kget (acct, rid) (m_l m)) as [i|] eqn:Hi; [|reflexivity].
+      destruct (grel_some _ _ _ _ Hl Hi) as (d & Hd & _).
+      assert (Ef : out_of (step c s (LInstall auths acct rid limit period)) = Fail).
+      { unfold out_of, step. cbn [exec]. unfold l_install. rewrite Ea. cbn [guard bind].
+        destruct (in_i128 limit && in_u32 period); cbn [guard bind unit_of]; [|reflexivity].
+        destruct ((limit <=? 0) || (period =? 0)); [reflexivity|]. rewrite Hd. reflexivity. }
+      rewrite Ef. reflexivity.
+    + rewrite (needs_account_auth c s (LInstall auths acct rid limit period) auths (acct, rid) eq_refl eq_refl Ea). reflexivity.
   - (* LSetLimit *)
     destruct (has_auth auths acct) eqn:Ea; [reflexivity|].
     rewrite (needs_account_auth c s (LSetLimit auths acct rid limit) auths (acct, rid) eq_refl eq_refl Ea). reflexivity.
@@ -302,7 +305,7 @@ Qed.
 Lemma spec_events_model c s m cl s' o evs :
   MI c s m -> step c s cl = (s', o, evs) -> spec_events m cl o = evs.
 Proof.
-  intros [Hnow Hs Hw Hinv Hlin Hlast] H. pose proof Hinv as [Hn Hsi Hwi Hl].
+  intros [Hnow Hs Hw Hinv Hlin Hlast Htaint] H. pose proof Hinv as [Hn Hsi Hwi Hl].
   unfold step in H. destruct (exec c s cl) as [[[s1 r1] e1]|] eqn:E.
   2:{ injection H as <- <- <-. destruct cl; reflexivity. }
   injection H as <- <- <-.
@@ -334,14 +337,22 @@ Proof.
 Qed.
 
 (* ---------- one monitor step on a model step ---------- *)
+Lemma lobs_masked_refl keys taint (f : key -> lobs) :
+  lobs_eqb_masked keys taint (map f keys) (map f keys) = true.
+Proof.
+  induction keys as [|k kr IH]; cbn [map lobs_eqb_masked]; [reflexivity|].
+  rewrite (opt_eqb_refl _ lobs1_eqb_refl), orb_true_r, IH. reflexivity.
+Qed.
+
 Lemma mon_step_model c u s m cl s' o evs :
-  0 < max_history c -> MI c s m -> step c s cl = (s', o, evs) ->
+  0 < max_history c -> MI c s m -> wf_call u cl = true -> step c s cl = (s', o, evs) ->
   mon_step c u m (cl, o, observe u s' evs) = (true, m_next m cl o) /\ MI c s' (m_next m cl o).
 Proof.
-  intros Hmh HMI H. pose proof HMI as [Hnow Hs Hw Hinv Hlin Hlast].
+  intros Hmh HMI Hwf H. pose proof HMI as [Hnow Hs Hw Hinv Hlin Hlast Htaint].
   destruct (step_sound c s (m_l m) cl s' o evs Hinv H) as (Hinv' & Hs' & Hw' & Hnow').
+  assert (Hn1 : 1 <= m_now m) by (rewrite Hnow; apply Hinv).
   assert (HMI' : MI c s' (m_next m cl o)).
-  { constructor; cbn [m_next m_now m_s m_w m_l m_last].
+  { constructor; cbn [m_next m_now m_s m_w m_l m_last m_taint].
     - rewrite Hnow'. rewrite Hnow. reflexivity.
     - rewrite Hs. symmetry. exact Hs'.
     - rewrite Hw. symmetry. exact Hw'.
@@ -349,19 +360,29 @@ Proof.
     - pose proof (step_linv c s cl Hlin) as Hl'. unfold step_state in Hl'. rewrite H in Hl'. exact Hl'.
     - unfold last_ok. destruct cl; auto.
       destruct (can_enforce_readonly c s p acct rid ctx sgs) as [E1 _].
-      rewrite H in E1. cbn [fst] in E1. subst s'. unfold out_of. rewrite H. reflexivity. }
+      rewrite H in E1. cbn [fst] in E1. subst s'. unfold out_of. rewrite H. reflexivity.
+    - rewrite Htaint. destruct o as [rt|]; [|destruct cl; reflexivity].
+      destruct cl; try reflexivity.
+      + destruct p; try reflexivity. destruct ctxs; [reflexivity|].
+        replace (m_now m <? 1) with false by lia. reflexivity.
+      + destruct p; reflexivity. }
   split; [|exact HMI'].
-  unfold mon_step. f_equal.
+  unfold mon_step. f_equal. rewrite Hwf. cbn [andb].
   assert (Ho : o = out_of (step c s cl)) by (unfold out_of; rewrite H; reflexivity).
   rewrite Ho at 1. rewrite (spec_outcome_model c s m cl Hmh HMI). cbn [andb].
   rewrite (spec_events_model c s m cl s' o evs HMI H).
-  destruct HMI' as [Hnow2 Hs2 Hw2 Hinv2 _ _]. pose proof Hinv2 as [Hn2 Hsi2 Hwi2 Hl2].
+  destruct HMI' as [Hnow2 Hs2 Hw2 Hinv2 _ _ Htaint2]. pose proof Hinv2 as [Hn2 Hsi2 Hwi2 Hl2].
   assert (Hobs : exp_obs u (m_next m cl o) evs = observe u s' evs).
   { unfold exp_obs, observe. rewrite Hs2, Hw2. f_equal.
     apply map_ext. intros k. specialize (Hl2 k).
     destruct (kget k (m_l (m_next m cl o))) as [i|], (kget k (st_spend s')) as [d|]; cbn [option_map]; try contradiction; [|reflexivity].
     f_equal. eapply lrel_obs. exact Hl2. }
-  rewrite Hobs, obs_eqb_refl. cbn [andb].
+  rewrite Hobs.
+  assert (Hcmp : forall tn sk, obs_eqb_m (u_keys u) tn sk (observe u s' evs) (observe u s' evs) = true).
+  { intros tn sk. unfold obs_eqb_m, observe. cbn [o_s o_w o_l o_ev].
+    rewrite (list_eqb_refl _ (opt_eqb_refl _ Z.eqb_refl)), (list_eqb_refl _ (opt_eqb_refl _ wobs1_eqb_refl)),
+      lobs_masked_refl, (list_eqb_refl _ event_eqb_refl), orb_true_r. reflexivity. }
+  rewrite Hcmp. cbn [andb].
   unfold config_inv. destruct (call_key cl) as [k|]; [|reflexivity].
   rewrite Hs2, Hw2.
   assert (E1 : match kget k (st_simple s') with Some t => 0 <? t | None => true end = true).
@@ -373,21 +394,23 @@ Proof.
   replace (wtotal (wd_weights d) <=? MAXU32) with true by lia. reflexivity.
 Qed.
 
-Lemma mon_model c u cs : 0 < max_history c -> forall s m i, MI c s m ->
+Lemma mon_model c u cs : 0 < max_history c -> forallb (wf_call u) cs = true -> forall s m i, MI c s m ->
   mon_from c u m (model_items c u s cs) i = 0%N.
 Proof.
-  intros Hmh. induction cs as [|cl r IH]; intros s m i HMI; cbn [model_items mon_from]; [reflexivity|].
+  intros Hmh. induction cs as [|cl r IH]; intros Hwf s m i HMI; cbn [model_items mon_from]; [reflexivity|].
+  cbn [forallb] in Hwf. apply andb_prop in Hwf as [Hwf1 Hwf2].
   destruct (step c s cl) as [[s' o] evs] eqn:E. cbn [mon_from].
-  destruct (mon_step_model c u s m cl s' o evs Hmh HMI E) as [E1 HMI']. rewrite E1. apply IH. exact HMI'.
+  destruct (mon_step_model c u s m cl s' o evs Hmh HMI Hwf1 E) as [E1 HMI']. rewrite E1. apply IH; assumption.
 Qed.
 
 (* ================= C14_monitor_accepts_model ================= *)
 Theorem check_accepts_model : forall (h : hdr) (cs : list call),
-  1 <= h_start h -> 0 < h_max_history h ->
+  1 <= h_start h <= MAXU32 -> 0 < h_max_history h -> forallb (wf_call (hdr_u h)) cs = true ->
   check (observe_model h cs) = (0%N, 0%N, 0%N).
 Proof.
-  intros h cs Hst Hmh. unfold check, observe_model. cbn [fst snd]. rewrite decode_encode.
-  rewrite diff_model. unfold mon_all. replace (1 <=? h_start h) with true by lia.
-  rewrite (mon_model (hdr_cfg h) (hdr_u h) cs Hmh (init (h_start h)) (m_init (h_start h)) 0%N (MI_init _ _ Hst)).
+  intros h cs Hst Hmh Hwf. unfold check, observe_model. cbn [fst snd]. rewrite decode_encode.
+  rewrite diff_model. unfold mon_all, hdr_ok.
+  replace ((0 <=? h_start h) && (h_start h <=? MAXU32) && (0 <? h_max_history h)) with true by lia.
+  rewrite (mon_model (hdr_cfg h) (hdr_u h) cs Hmh Hwf (init (h_start h)) (m_init (h_start h)) 0%N (MI_init _ _ (proj1 Hst))).
   reflexivity.
 Qed.
